@@ -79,6 +79,24 @@ def lemma_axioms() -> list[z3.BoolRef]:
     return out
 
 
+def _has_ite(t) -> bool:
+    seen, stack = set(), [t]
+    while stack:
+        x = stack.pop()
+        if x.get_id() in seen:
+            continue
+        seen.add(x.get_id())
+        if z3.is_app(x) and x.decl().kind() == z3.Z3_OP_ITE:
+            return True
+        stack.extend(x.children())
+    return False
+
+
+def _pats(p):
+    ps = p if isinstance(p, list) else [p]
+    return [] if any(_has_ite(x) for x in ps) else ps
+
+
 # ---- interpretations ------------------------------------------------------------------------------------
 class _Sym:
     """Symbolic interpretation: values are `Val`s or raw z3 scalars."""
@@ -162,8 +180,9 @@ class _Sym:
             body = z3.And(*body.values())
         kw = {}
         if pattern is not None:
-            p = pattern(i)
-            kw["patterns"] = [p] if not isinstance(p, list) else p
+            ps = _pats(pattern(i))  # (z3 rejects patterns that contain an `ite`)
+            if ps:
+                kw["patterns"] = ps
         try:
             return z3.ForAll([i], z3.Implies(z3.And(lo <= i, i < hi), body), **kw)
         except z3.Z3Exception:  # e.g. the pattern contains an `ite`: fall back to inferred triggers
@@ -176,12 +195,25 @@ class _Sym:
             body = z3.And(*body)
         kw = {}
         if pattern is not None:
-            p = pattern(unwrap(Val(ty, k)))
-            kw["patterns"] = [p] if not isinstance(p, list) else p
+            ps = _pats(pattern(unwrap(Val(ty, k))))
+            if ps:
+                kw["patterns"] = ps
         try:
             return z3.ForAll([k], body, **kw)
         except z3.Z3Exception:
             return z3.ForAll([k], body)
+
+    def exists_in_dict(self, d, fn: Callable):
+        d = wrap(d)
+        k = z3.Const(fresh_name("ek"), d.ty.key.sort())
+        body = fn(unwrap(Val(d.ty.key, k)))
+        return z3.Exists([k], z3.And(z3.Select(d.ty.dom(d.t), k), body))
+
+    def forall_in_dict(self, d, fn: Callable):
+        d = wrap(d)
+        k = z3.Const(fresh_name("fk"), d.ty.key.sort())
+        body = fn(unwrap(Val(d.ty.key, k)))
+        return z3.ForAll([k], z3.Implies(z3.Select(d.ty.dom(d.t), k), body))
 
     # options / unions
     def is_none(self, x):
@@ -197,6 +229,11 @@ class _Sym:
 
     def is_tag(self, x, tag):
         return x.ty.is_(tag, x.t)
+
+    def singleton(self, x):
+        x = wrap(x)
+        ty = TSeq(x.ty)
+        return Val(ty, ty.mk(z3.IntVal(1), z3.Store(z3.K(z3.IntSort(), x.t), 0, x.t)))
 
     def untag(self, x, tag):
         return unwrap(Val(x.ty.alt_ty(tag), x.ty.get(tag, x.t)))
@@ -243,6 +280,12 @@ class _Conc:
     def forall_key(self, ty, fn, pattern=None, domain=()):
         return all(bool(fn(k)) for k in domain)
 
+    def exists_in_dict(self, d, fn):
+        return any(bool(fn(k)) for k in d)
+
+    def forall_in_dict(self, d, fn):
+        return all(bool(fn(k)) for k in d)
+
     def len(self, x):
         return len(x)
 
@@ -286,6 +329,9 @@ class _Conc:
 
     def is_tag(self, x, tag):
         return self._TAGS[tag](x)
+
+    def singleton(self, x):
+        return (x,)
 
     def untag(self, x, tag):
         return x
